@@ -544,16 +544,15 @@ class Run:
         return (self.dir_state(), self.clock, self.ticks_left, tuple((p.pc, p.finished, p.obs.hexdigest()) for p in self.procs))
 
 
-_TMPNAME = None
-
-
 def canon_name(name):
-    """temporary files carry the writer's pid / thread id in their name: not part of the state"""
-    global _TMPNAME
-    if _TMPNAME is None:
-        import re
-        _TMPNAME = re.compile(r'\.\d+\.\d+\.tmp$|\.[0-9a-z_]{6,10}\.tmp$')
-    return _TMPNAME.sub('.<tmp>', name)
+    """temporary files carry the writer's pid / thread id / a counter / random characters in their name: not
+    part of the state. Whatever precedes the first ".py" (the module the temporary file is for) is kept."""
+    d, sep, b = name.rpartition('/')
+    if b.endswith('.tmp') or b.startswith('tmp') or '.tmp.' in b:
+        i = b.find('.py')
+        base = b[:i + 3] if i >= 0 else ''
+        return d + sep + base + '.<tmp>'
+    return name
 
 
 def dir_state(root):
